@@ -43,6 +43,7 @@ BENIGN = [
  ('soc_identity_reordered', R + 'core/cones/socone.rs', '            sparse_data.d = (0.5).as_T();\n            sparse_data.u.fill(T::zero());\n            sparse_data.u[0] = T::FRAC_1_SQRT_2();\n            sparse_data.v.fill(T::zero());', '            sparse_data.v.fill(T::zero());\n            sparse_data.u.fill(T::zero());\n            sparse_data.u[0] = T::FRAC_1_SQRT_2();\n            sparse_data.d = (0.5).as_T();'),
  ('composite_symmetric_first', R + 'core/cones/compositecone.rs', '                if cone.is_symmetric() == symcond {\n                    continue;\n                }\n                let (dzi, dsi)', '                if cone.is_symmetric() != symcond {\n                    continue;\n                }\n                let (dzi, dsi)'),
  ('composite_skip_ne', R + 'core/cones/compositecone.rs', None, None),  # handled specially: != and swapped flags
+ ('is_triu_explicit_loop', 'src/algebra/csc/core.rs', '            if rows.iter().any(|&row| row > col) {\n                return false;\n            }', '            for &row in rows.iter() {\n                if row > col {\n                    return false;\n                }\n            }'),
  ('refactor_comment_and_let', 'src/qdldl/qdldl.rs', '        self.is_symbolic = false;\n        _factor(', '        self.is_symbolic = false;\n        let _n = self.D.len();\n        _factor('),
 ]
 
